@@ -19,6 +19,7 @@ FUNCS = ["lbfgsb.bfgsmats.update_lbfgs_matrices", "lbfgsb.bfgsmats.update_X_and_
          "lbfgsb.bfgsmats.form_invMfactors", "lbfgsb.bfgsmats.bmv", "lbfgsb.bfgsmats.LBFGSB_MATRICES"]
 
 EPS = Fraction("2.2e-16")
+CUR_EPS = [EPS]     # the curvature threshold of the current job (params["eps"], default the package's default)
 
 
 def _b(e):
@@ -36,7 +37,7 @@ def curvature_ok(xa, ga, xb, gb):
     """z3 term: pair (xb - xa, gb - ga) satisfies s.y > eps*y.y"""
     s = [q - p for p, q in zip(xa, xb)]
     y = [q - p for p, q in zip(ga, gb)]
-    r = dot(s, y) > SReal.of(EPS) * dot(y, y)
+    r = dot(s, y) > SReal.of(CUR_EPS[0]) * dot(y, y)
     return _b(r)
 
 
@@ -52,6 +53,7 @@ def sym_vec(ctx, np, name, n, mag=64):
 def step(ctx, params):
     """One real update from an arbitrary valid state."""
     n, maxcor, length = params["n"], params["maxcor"], params["len"]
+    CUR_EPS[0] = Fraction(params["eps"]) if params.get("eps") is not None else EPS
     W = common.world()
     np = W.np
     bm = W.load("lbfgsb.bfgsmats")
@@ -77,7 +79,7 @@ def step(ctx, params):
         before = {f: getattr(mats, f) for f in mats.__slots__}
         xk_a, gk_a = np.array(xk), np.array(gk)
         force = bool(params.get("force"))
-        ret = bm.update_lbfgs_matrices(xk_a, gk_a, X, G, maxcor, mats, force, float(EPS))
+        ret = bm.update_lbfgs_matrices(xk_a, gk_a, X, G, maxcor, mats, force, float(CUR_EPS[0]))
         accepted_spec = curvature_ok(Xs[-1], Gs[-1], xk, gk)
         was_accepted = len(X) > 0 and X[-1] is xk_a
         info = dict(n=n, maxcor=maxcor, len=length)
@@ -262,7 +264,7 @@ def real_case(params, witness):
     f = common.fr_to_float
     if "len" in params:
         n, L = params["n"], params["len"]
-        return dict(kind="matstep", n=n, maxcor=params["maxcor"], eps=float(EPS),
+        return dict(kind="matstep", n=n, maxcor=params["maxcor"], eps=float(Fraction(params["eps"])) if params.get("eps") is not None else float(EPS),
                     X=[[f(witness.get("X%d_%d" % (k, i), "0")) for i in range(n)] for k in range(L)],
                     G=[[f(witness.get("G%d_%d" % (k, i), "0")) for i in range(n)] for k in range(L)],
                     xk=[f(witness.get("xk_%d" % i, "0")) for i in range(n)],
